@@ -14,7 +14,7 @@ pub mod x0 {
       relation r3(i64, i64);
       relation r4(i64, i64, i64);
       r1(((*v1) + 1), v1, v2) <-- if let Some(v0) = Some(2), r0(v1, v2), for v3 in 1..4, if ((*v1) < 6);
-      r2(((*v3) + 1), v0, v0) <-- if let Some(v0) = Some(1), r1(v1, v0, v0), r1(v2, 3, v3) if (v0 != 5), if ((*v3) < 6);
+      r2(((*v3) + 1), v0, v0) <-- if let Some(v0) = Some(1), r1(v1, v0, v0), r1(v2, 3, v3) if (v0 != 5), if ((*v3) < 6), if (v0 <= 6);
       r3(((*v1) + 1), v0) <-- r2(v0, v1, v2), if ((*v1) != 6), if ((*v1) < 6);
       r4(v2, v2, ((*v2) + 1)) <-- for v0 in 2..3, r3(v1, v2), if (v0 != 2), if ((*v2) < 6);
       r4(v0, v8, v9) <-- if let Some(v9) = Some(0), r0(v0, v1), r0(v1, v9) let v8 = ((*v0) + 1);
@@ -61,7 +61,7 @@ pub mod y0 {
       relation r3(i64, i64);
       relation r4(i64, i64, i64);
       r1(((*v1) + 1), v1, v2) <-- if let Some(v0) = Some(2), r0(v1, v2), for v3 in 1..4, if ((*v1) < 6);
-      r2(((*v3) + 1), v0, v0) <-- if let Some(v0) = Some(1), r1(v1, v0, v0), r1(v2, 3, v3) if (v0 != 5), if ((*v3) < 6);
+      r2(((*v3) + 1), v0, v0) <-- if let Some(v0) = Some(1), r1(v1, v0, v0), r1(v2, 3, v3) if (v0 != 5), if ((*v3) < 6), if (v0 <= 6);
       r3(((*v1) + 1), v0) <-- r2(v0, v1, v2), if ((*v1) != 6), if ((*v1) < 6);
       r4(v2, v2, ((*v2) + 1)) <-- for v0 in 2..3, r3(v1, v2), if (v0 != 2), if ((*v2) < 6);
       r4(v0, v8, v9) <-- if let Some(v9) = Some(0), r0(v0, v1), r0(v1, v9) let v8 = ((*v0) + 1);
@@ -460,8 +460,8 @@ pub mod x5 {
       r2(v3) <-- if let Some(v0) = Some(0), r1(v1, v0), if ((*v1) <= 5), r0(v2, v3, v4);
       r2(v0) <-- if let Some(v9) = Some(0), r1(v0, v1), r1(v1, v9) let v8 = ((*v0) + 1);
       r2(v0) <-- r1(v0, v1), r1(v0, v0), r1(v1, v2);
-      r2(v0) <-- if let Some(v0) = None::<i64>;
-      r2(v0) <-- if let Some(v0) = Some(2);
+      r2(v0) <-- if let Some(v0) = None::<i64>, if (v0 <= 6);
+      r2(v0) <-- if let Some(v0) = Some(2), if (v0 <= 6);
       r2(3) <-- r2(3);
    }
    pub struct Inst { p: Prog, pool: Option<ascent::rayon::ThreadPool> }
@@ -502,8 +502,8 @@ pub mod y5 {
       r2(v3) <-- if let Some(v0) = Some(0), r1(v1, v0), if ((*v1) <= 5), r0(v2, v3, v4);
       r2(v0) <-- if let Some(v9) = Some(0), r1(v0, v1), r1(v1, v9) let v8 = ((*v0) + 1);
       r2(v0) <-- r1(v0, v1), r1(v0, v0), r1(v1, v2);
-      r2(v0) <-- if let Some(v0) = None::<i64>;
-      r2(v0) <-- if let Some(v0) = Some(2);
+      r2(v0) <-- if let Some(v0) = None::<i64>, if (v0 <= 6);
+      r2(v0) <-- if let Some(v0) = Some(2), if (v0 <= 6);
       r2(3) <-- r2(3);
    }
    pub struct Inst { p: Prog, pool: Option<ascent::rayon::ThreadPool> }
